@@ -1,6 +1,8 @@
 package main
 
 import (
+	"syscall"
+	"net"
 	"net/http/httptest"
 	"net/http"
 	"github.com/polydawn/rio/fs"
@@ -464,6 +466,17 @@ func cliExec(c *Ctx, op string) {
 	os.WriteFile(filepath.Join(base, "src", "d", "f"), []byte("x"), 0644)
 	os.MkdirAll(filepath.Join(base, "wh"), 0755)
 	os.Symlink("loop", filepath.Join(base, "loop"))
+	// a fileset holding the special files a walk can meet: a unix socket, a fifo, device nodes
+	os.MkdirAll(filepath.Join(base, "special"), 0755)
+	if l, e := net.Listen("unix", filepath.Join(base, "special", "sock")); e == nil {
+		defer l.Close()
+	}
+	syscall.Mkfifo(filepath.Join(base, "special", "fifo"), 0644)
+	syscall.Mknod(filepath.Join(base, "special", "chr"), syscall.S_IFCHR|0600, 1<<8|3)
+	os.MkdirAll(filepath.Join(base, "onlysock"), 0755)
+	if l, e := net.Listen("unix", filepath.Join(base, "onlysock", "s")); e == nil {
+		defer l.Close()
+	}
 	bin := os.Getenv("RIO_BIN")
 	if bin == "" {
 		c.EmitR(op, "skip", "skip")
@@ -603,6 +616,17 @@ func cliEngine(c *Ctx) {
 				[]string{"mirror", "@GOODID@", "--target=" + scheme + bad, "--source=ca+file://@W@/wh"},
 				[]string{"pack", "tar", "@W@/src", "--target=" + scheme + bad})
 		}
+	}
+	// ware ids whose hash part is not a plain name (it becomes path segments of a content-addressed warehouse), and
+	// filesets holding sockets / fifos / device nodes
+	for _, id := range []string{"tar:/abcdefgh", "tar:../../../etc/passwd", "zip:/a", "tar:abc/def/ghi/jkl", "tar:..", "tar:.", "zip:ab/../../cd"} {
+		vecs = append(vecs,
+			[]string{"unpack", id, "@W@/dst", "--source=ca+file://@W@/wh"}, []string{"unpack", id, "@W@/dst", "--source=file://@W@/wh/x.tgz"},
+			[]string{"mirror", id, "--target=ca+file://@W@/wh2", "--source=ca+file://@W@/wh"}, []string{"--format=json", "unpack", id, "@W@/dst", "--source=ca+file://@W@/wh", "--placer=none"})
+	}
+	for _, fm := range []string{"tar", "zip"} {
+		vecs = append(vecs, []string{"pack", fm, "@W@/special"}, []string{"pack", fm, "@W@/onlysock"}, []string{"pack", fm, "@W@/special", "--target=ca+file://@W@/wh"},
+			[]string{"--format=json", "pack", fm, "@W@/onlysock"}, []string{"pack", fm, "@W@/special/sock"}, []string{"pack", fm, "@W@/special/fifo"})
 	}
 	// transfers over HTTP that break off mid-body: every command, zip and tar, mono and content-addressed addresses
 	zid := "zip:3vuuiiEUjwwYaRFuLUXh9Sb3DkTFP4RCnCmRmdEDBT3GZ9mP5ShzmUgGm4hgYEUDjb"
